@@ -428,9 +428,9 @@ func outLast() any                               { return nil }
 //@ loop 1 invariant [C15 C20 C09] visit-each: node != nil && level >= first ==> ncalls(exec.executeItemOptUnwrapTarget) == loopEntry(ncalls(exec.executeItemOptUnwrapTarget)) + rangeindex + 1
 //@ loop 1 invariant [C15] descend-each: level < last ==> ncalls(exec.executeAnyItem) == loopEntry(ncalls(exec.executeAnyItem)) + rangeindex + 1
 //@ loop 1 invariant [C15] collect-each: node == nil && found != nil && level >= first && level >= last ==> len(found.list) == loopEntry(len(found.list)) + rangeindex + 1
-//@ atcall executeItemOptUnwrapTarget assert [C15 C01] visit: arg_value == v && arg_node == node && arg_found == found && arg_unwrap == unwrapNext && (level >= first || (first == 4294967295 && last == 4294967295 && col == nil))
+//@ atcall executeItemOptUnwrapTarget assert [C15 C01] visit: arg_value == v && arg_node == node && arg_found == found && arg_unwrap == unwrapNext && (level >= first || (first == 4294967295 && last == 4294967295 && !is[[]any](v) && !is[map[string]any](v)))
 //@ atcall executeItemOptUnwrapTarget assert [C07] below-anypath: ignoreStructuralErrors ==> exec.ignoreStructuralErrors
-//@ atcall executeAnyItem assert [C15 C07] descend: level < last && arg_level == level+1 && arg_first == first && arg_last == last && arg_node == node && arg_found == found && sameSlice(arg_value, col) && arg_ignoreStructuralErrors == ignoreStructuralErrors && arg_unwrapNext == unwrapNext
+//@ atcall executeAnyItem assert [C15 C07] descend: level < last && arg_level == level+1 && arg_first == first && arg_last == last && arg_node == node && arg_found == found && (is[[]any](v) && as[[]any](v) != nil ==> sameSlice(arg_value, as[[]any](v))) && (is[map[string]any](v) ==> len(arg_value) == len(as[map[string]any](v)) && arg_value != nil) && (!is[[]any](v) && !is[map[string]any](v) ==> arg_value == nil) && arg_ignoreStructuralErrors == ignoreStructuralErrors && arg_unwrapNext == unwrapNext
 //@ ensures [C15] level-cut: level > last ==> r0 == statusNotFound && r1 == nil && ncalls(exec.executeItemOptUnwrapTarget) == 0 && ncalls(exec.executeAnyItem) == 0
 //@ ensures [C01] collect-cannot-fail: node == nil && found != nil ==> r0 != statusFailed && r1 == nil
 
